@@ -111,6 +111,9 @@ fn redirect_stdout(path: &std::path::Path) {
 }
 
 struct Shared {
+    /// the loggers' queues hold one or two events only and are emptied by a pump thread while the run goes on: logging
+    /// calls really wait for room (as they do on the stdout default's 100-event queue under load)
+    small: bool,
     senders: Vec<SyncSender<LogEvent>>,
     receivers: Mutex<Vec<Option<Receiver<LogEvent>>>>,
     guards: Mutex<Vec<ClearGlobalLoggerOnDrop>>,
@@ -240,7 +243,27 @@ impl ThreadCtx<'_> {
         let rx = self.sh.receivers.lock().unwrap()[id - 1].take();
         if let Some(rx) = rx {
             let s0 = stamp();
-            {
+            if self.sh.small {
+                // a logging call may be waiting for room in this very queue while it holds the global-logger mutex: keep
+                // emptying the queue until the mutex is ours
+                let stop = Arc::new(std::sync::atomic::AtomicBool::new(false));
+                let stop2 = stop.clone();
+                let helper = std::thread::spawn(move || {
+                    let mut got = vec![];
+                    while !stop2.load(std::sync::atomic::Ordering::SeqCst) {
+                        drain(id, &rx, &mut got);
+                        std::thread::yield_now();
+                    }
+                    (rx, got)
+                });
+                let lock = lock_global_logger();
+                stop.store(true, std::sync::atomic::Ordering::SeqCst);
+                let (rx, mut got) = helper.join().unwrap();
+                drain(id, &rx, &mut got);
+                drop(rx);
+                drop(lock);
+                self.sh.delivered.lock().unwrap().extend(got);
+            } else {
                 // no send is in progress while the global-logger mutex is held: everything sent so far is drained
                 let lock = lock_global_logger();
                 let mut got = vec![];
@@ -372,12 +395,13 @@ pub fn run_threads(args: &Args, mut out: Out) {
         *lock_global_logger() = GlobalLoggerState::None;
         let mut senders = vec![];
         let mut receivers = vec![];
-        for _ in 0..nloggers {
-            let (s, r) = sync_channel::<LogEvent>(200_000);
+        let small = sid % 4 == 1;
+        for i in 0..nloggers {
+            let (s, r) = sync_channel::<LogEvent>(if small { 1 + i % 2 } else { 200_000 });
             senders.push(s);
             receivers.push(Some(r));
         }
-        let sh = Arc::new(Shared { senders, receivers: Mutex::new(receivers), guards: Mutex::new(vec![]), delivered: Mutex::new(vec![]), ops: Mutex::new(vec![]) });
+        let sh = Arc::new(Shared { small, senders, receivers: Mutex::new(receivers), guards: Mutex::new(vec![]), delivered: Mutex::new(vec![]), ops: Mutex::new(vec![]) });
         let barrier = Arc::new(Barrier::new(nthreads));
         let mut hs = vec![];
         for t in 1..=nthreads {
@@ -406,11 +430,39 @@ pub fn run_threads(args: &Args, mut out: Out) {
                 clear_thread_local_log_tags();
             }));
         }
+        let pump_stop = Arc::new(std::sync::atomic::AtomicBool::new(false));
+        let pump = if small {
+            let (sh, stop) = (sh.clone(), pump_stop.clone());
+            Some(std::thread::spawn(move || {
+                while !stop.load(std::sync::atomic::Ordering::SeqCst) {
+                    {
+                        // (what is taken out of a queue is filed before the queue can change hands: per-queue order is kept)
+                        let rs = sh.receivers.lock().unwrap();
+                        let mut got = vec![];
+                        for (i, r) in rs.iter().enumerate() {
+                            if let Some(r) = r {
+                                drain(i + 1, r, &mut got);
+                            }
+                        }
+                        if !got.is_empty() {
+                            sh.delivered.lock().unwrap().extend(got);
+                        }
+                    }
+                    std::thread::sleep(Duration::from_micros(150));
+                }
+            }))
+        } else {
+            None
+        };
         let mut thread_panicked = false;
         for h in hs {
             if h.join().is_err() {
                 thread_panicked = true;
             }
+        }
+        pump_stop.store(true, std::sync::atomic::Ordering::SeqCst);
+        if let Some(p) = pump {
+            p.join().unwrap();
         }
         // end of the run: release the cell (a default logger's sender is dropped, its thread drains and ends)
         // (a leftover guard is dropped as one more recorded call: a panic in it is data, not a harness failure)
